@@ -2,7 +2,7 @@
    Proofs/LogicProofs.v (helpers, half/full adder, ripple-carry adder), Proofs/LogicMux.v, Proofs/LogicLint.v,
    Proofs/LogicPop.v, Proofs/LogicPopAll.v.  Every width statement is unbounded (induction), none is a sample. *)
 From stdpp Require Import strings gmap sets numbers.
-From CG Require Import Model.Logic Model.Lint Proofs.LogicOracle Proofs.LogicProofs Proofs.LogicLint Proofs.LogicMux Proofs.LogicPop Proofs.LogicPopAll Proofs.LogicIO.
+From CG Require Import Model.Logic Model.Lint Proofs.LogicOracle Proofs.LogicProofs Proofs.LogicLint Proofs.LogicMux Proofs.LogicPop Proofs.LogicPopAll Proofs.LogicIO Proofs.LogicCert Proofs.LogicCertAM Proofs.LogicCertPop.
 Open Scope string_scope.
 
 (* ---------------------------------------------------------------- helpers of utils.py *)
@@ -95,6 +95,22 @@ Print Assumptions C13_popcount_oracle_sound.
 Theorem C13_popcount_rejects : popcount 0 = Raise IndexError.
 Proof. reflexivity. Qed.
 Print Assumptions C13_popcount_rejects.
+
+(* ---------------------------------------------------------------- the blocks are combinational, every width
+   closed (every fan-in is a node), acyclic (Base/Sem.v: a rank function decreasing along every edge), and the free
+   nodes (Base/Sem.v free_nodes: inputs, x constants, undriven buf/not, blackbox outputs) are exactly the named inputs.
+   With Sem.unique_extension: every assignment of the inputs extends to exactly one consistent valuation. *)
+Theorem C13_adder_combinational : ∀ w ci co,
+  combinational (c_g (adder w ci co)) (names "a_" w ++ names "b_" w ++ (if ci then ["cin"] else []))%list.
+Proof. exact adder_combinational. Qed.
+Print Assumptions C13_adder_combinational.
+Theorem C13_mux_combinational : ∀ w C, 1 ≤ w → mux w = Ok C →
+  combinational (c_g C) (names "in_" w ++ names "sel_" (sel_width w))%list.
+Proof. exact mux_combinational. Qed.
+Print Assumptions C13_mux_combinational.
+Theorem C13_popcount_combinational : ∀ w C, 1 ≤ w → popcount w = Ok C → combinational (c_g C) (names "in_" w).
+Proof. exact popcount_combinational. Qed.
+Print Assumptions C13_popcount_combinational.
 
 (* ---------------------------------------------------------------- non-vacuity: consistent valuations exist and the numbers come out *)
 Example C13_adder_inhabited :
